@@ -38,6 +38,9 @@ type Config struct {
 	Known        []KnownFinding
 	MaxCex       int // per label
 	Trace        bool
+	ForkStats    bool
+	NoPortfolio  bool
+	Labels       []string // assertion label prefixes this run checks (empty = all)
 	Deadline     time.Time
 }
 
@@ -77,6 +80,7 @@ type Result struct {
 	MaxDepth     int
 	Summaries    map[string]*Summary
 	sumPending   map[string][]sumCase
+	ForkSites    map[string]int
 }
 
 type pendingPath struct {
@@ -111,6 +115,7 @@ type pathState struct {
 	notEq   map[string][]*big.Int
 	ctx     *mergeCtx // non-nil inside a mergeable call: decisions are local
 	seq         map[string]int // harness sequence counters (vxSeq), restored by merging
+	tlo, thi    *big.Int // range of vxTime instants (nil = year 1..9999)
 	speculating bool
 	noIfConv    bool
 	ifconv      int
@@ -414,6 +419,23 @@ func (p *pathState) branch(c *Term) bool {
 		}
 	}
 	if otherOK {
+		if p.ctx == nil && p.ex.cfg.ForkStats {
+			site := "?"
+			if p.interp != nil && p.interp.cur != nil {
+				site = ""
+				for f, n := p.interp.cur, 0; f != nil && n < 4; f, n = f.caller, n+1 {
+					site += f.fn.Name()
+					if f.pos.IsValid() {
+						ps := p.ex.prog.Fset.Position(f.pos)
+						site += fmt.Sprintf(":%d", ps.Line)
+					}
+					site += " < "
+				}
+			}
+			p.ex.mu.Lock()
+			p.ex.res.ForkSites[site]++
+			p.ex.mu.Unlock()
+		}
 		alt := make([]int, *pos+1)
 		copy(alt, (*prefix)[:*pos])
 		if v {
@@ -481,6 +503,17 @@ func (p *pathState) choice(n int) int {
 
 func (p *pathState) assertCond(cond *Term, label string) {
 	ex := p.ex
+	if len(ex.cfg.Labels) > 0 {
+		match := strings.HasPrefix(label, "engine/")
+		for _, pre := range ex.cfg.Labels {
+			if strings.HasPrefix(label, pre) {
+				match = true
+			}
+		}
+		if !match {
+			return // another property's assertion: not this check's concern
+		}
+	}
 	ex.mu.Lock()
 	ls := ex.res.Labels[label]
 	if ls == nil {
@@ -599,7 +632,7 @@ func NewExplorer(prog *ssa.Program, fn *ssa.Function, cfg Config) *Explorer {
 	ex := &Explorer{cfg: cfg, prog: prog, fn: fn, sizes: types.SizesFor("gc", "amd64")}
 	ex.cond = sync.NewCond(&ex.mu)
 	ex.res = &Result{Harness: fn.Name(), Labels: map[string]*LabelStat{}, Covers: map[string]int{}, KnownSeen: map[string]Model{},
-		Funcs: map[string]int{}, Externals: map[string]int{}, Summaries: map[string]*Summary{}, sumPending: map[string][]sumCase{}}
+		Funcs: map[string]int{}, Externals: map[string]int{}, Summaries: map[string]*Summary{}, sumPending: map[string][]sumCase{}, ForkSites: map[string]int{}}
 	return ex
 }
 
@@ -631,10 +664,19 @@ func (ex *Explorer) Run() *Result {
 		wg.Add(1)
 		go func(w int) {
 			defer wg.Done()
-			s, err := newSolver(ex.cfg.Solver, ex.cfg.QueryTimeout)
+			primaryT := ex.cfg.QueryTimeout
+			if ex.cfg.Solver == SolverZ3New && !ex.cfg.NoPortfolio {
+				primaryT = 3 * time.Second // fall back to cvc5 early
+			}
+			s, err := newSolver(ex.cfg.Solver, primaryT)
 			if err != nil {
 				ex.inconclusive("cannot start solver: " + err.Error())
 				return
+			}
+			if ex.cfg.Solver == SolverZ3New && !ex.cfg.NoPortfolio {
+				if alt, err := newSolver(SolverCVC5, ex.cfg.QueryTimeout); err == nil {
+					s.alt = alt
+				}
 			}
 			solvers[w] = s
 			defer s.close()
